@@ -146,6 +146,28 @@ Proof. exact glyphs_before_fix_refuted_proof. Qed.
 Theorem strings_before_fix_refuted : exists bs, Forall byte bs /\ ~ is_utf8 (str_unchecked bs).
 Proof. exact str_unchecked_refuted_proof. Qed.
 
+(* ------------------------------------------------------------------ the fix commits are local *)
+
+(* wherever the unchecked code stored only scalar values, the fixed code returns the very same result: the fixes
+   change the outcome only on inputs that used to materialise a non-scalar value *)
+Theorem fix_is_local_clipboard : forall data r,
+  clipboard char_from_u32_unchecked data = Done r -> Forall ev_scalar (c_cells r) -> clipboard conv_clipboard data = Done r.
+Proof. exact fix_is_local_clipboard_proof. Qed.
+
+Theorem fix_is_local_icy : forall chk y0 w h bs ev,
+  cells char_from_u32_unchecked chk y0 w h bs = Done ev -> Forall ev_scalar ev -> cells char_from_u32 chk y0 w h bs = Done ev.
+Proof. exact fix_is_local_icy_proof. Qed.
+
+Theorem fix_is_local_glyphs : forall h data g,
+  glyphs char_from_u32_unchecked h data = Done g -> Forall key_scalar g -> glyphs conv_glyphs h data = Done g.
+Proof. exact fix_is_local_glyphs_proof. Qed.
+
+(* no glyph is lost except those whose index is not a scalar value *)
+Theorem glyphs_complete : forall h data g, (0 < h)%nat -> glyphs conv_glyphs h data = Done g ->
+  forall k, scalar k -> ((N.to_nat k + 1) * h <= length data)%nat ->
+  In (k, firstn h (skipn (N.to_nat k * h) data)) g.
+Proof. exact glyphs_complete_proof. Qed.
+
 (* ------------------------------------------------------------------ non-vacuity *)
 
 (* "65;2;3;4;5": 'A' in rows 1..3, columns 2..4 *)
